@@ -379,9 +379,37 @@ def canonical_roles(trees: Dict[str, ast.Module]) -> Dict[str, str]:
         if canon in names_used or len(set(cands_)) != 1:
             continue
         mapping[canon] = cands_[0]
+    # the two registries of the description in progress (module-level StrictDict()s next to the description lock): found by their
+    # annotations when they were renamed; the usual names are ordinary words elsewhere, so the renaming is limited to the new names
+    for t in trees.values():
+        if not any(isinstance(n, (ast.Assign, ast.AnnAssign)) and isinstance(getattr(n, "value", None), ast.Call)
+                   and ast.unparse(n.value.func).split(".")[-1] in ("Lock", "RLock") for n in t.body):
+            continue
+        regs = [n for n in t.body if isinstance(n, ast.AnnAssign) and isinstance(n.target, ast.Name) and n.value is not None
+                and ast.unparse(n.value) == "StrictDict()"]
+        have = {n.target.id for n in regs}
+        if len(regs) == 2 and not ({"exec_nodes", "results"} & have):
+            xn = [n.target.id for n in regs if "ExecNode" in ast.unparse(n.annotation)]
+            rs = [n.target.id for n in regs if "ExecNode" not in ast.unparse(n.annotation)]
+            if len(xn) == 1 and len(rs) == 1:
+                special = {xn[0]: "exec_nodes", rs[0]: "results"}
+                for t2 in trees.values():
+                    for n in ast.walk(t2):
+                        if isinstance(n, ast.Attribute) and n.attr in special:
+                            n.attr = special[n.attr]
+                        elif isinstance(n, ast.Name) and n.id in special:
+                            n.id = special[n.id]
+                        elif isinstance(n, ast.alias) and n.name in special:
+                            if n.asname is None:
+                                n.asname = None
+                            n.name = special[n.name]
+                        elif isinstance(n, ast.Global):
+                            n.names = [special.get(x, x) for x in n.names]
+                mapping["node.exec_nodes"] = xn[0]
+                mapping["node.results"] = rs[0]
     if not mapping:
         return mapping
-    inv = {v: k for k, v in mapping.items()}
+    inv = {v: k for k, v in mapping.items() if "." not in k}
     for t in trees.values():
         for n in ast.walk(t):
             if isinstance(n, (ast.FunctionDef, ast.AsyncFunctionDef)) and n.name in inv:
